@@ -109,8 +109,8 @@ W.contract(Contract('Renaming.add_states', [('self', REN), ('states', SetFS), ('
 
 # ------------------------------------------------------------------ copying an operand into the result under the renaming
 def rn(R, s__, i__): return Select(rval(R).term, key(s__, i__))
-def covers(R, f, idx): return ForAll([s_], Implies(f._states[s_], rdom(R)[key(s_, idx.term)]))
-def WFF(f): return And(wf_delta(f), ForAll([p, a, q, o], Implies(D(f)(p, a, q, o), And(f._states[p], f._states[q]))),
+def covers(R, f, idx): return ForAll([s_], Implies(f._states[s_], rdom(R)[key(s_, idx.term)]), patterns=[f._states[s_]])
+def WFF(f): return And(wf_delta(f), ForAll([p, a, q, o], Implies(D(f)(p, a, q, o), And(f._states[p], f._states[q])), patterns=[cnt(f, p, a, q, o)]),
                        ForAll([s_], Implies(f._start_states[s_], f._states[s_])), ForAll([s_], Implies(f._final_states[s_], f._states[s_])))
 def copied_D(o_, n, cov):
     """transitions of the result = those it had + the renamed copies of the operand's transitions (as far as `cov`); three implications with triggers"""
